@@ -319,6 +319,11 @@ def r15_4(cx):
         if ok:
             r = e.args[1].strip()
             ok = r.kind == 'agg' and r.info.get('variant') == 'RangeFrom' and m.is_counter(r.args[0])
+        if not ok:
+            # the same view spelled slice.split_at[_mut](counter).1
+            sp = e.a.strip() if e.kind == 'proj' and e.op == 'field' and e.info.get('i') == 1 and e.a is not None else None
+            ok = sp is not None and sp.kind == 'call' and sp.op.rsplit('::', 1)[-1] in ('split_at', 'split_at_mut') and len(sp.args) == 2 and \
+                is_call(sp.args[0], slicer) and m.is_container(sp.args[0].strip().args[0]) and m.is_counter(sp.args[1])
         cx.check(ok, 'view', fn, fn.loc(), 'returns %s' % show(e), fail_detail='the view is not container[counter..]: returns %s' % show(e))
 
 
